@@ -158,7 +158,9 @@ def remove_negligible_negative_values(material):
         material_sum = abs(material).sum()
         if material_sum > 1e-16:
             negligible = material[negative_index] / material_sum > -1e-16
-            material[negligible] = 0. 
+            # Zero the negligible entries among the negative ones (not the entries
+            # of the whole material that happen to sit at those positions)
+            material[tuple([[j for j, k in zip(i, negligible) if k] for i in negative_index])] = 0. 
         else:
             material[negative_index] = 0. 
 
